@@ -27,6 +27,8 @@ pub struct ObsShared {
     pub term: Option<SimTerm>,
     pub ticks: u64,
     pub resets: u64,
+    /// (pos, finished) of the state handed to the last `reset` call
+    pub last_reset_state: Option<(u64, bool)>,
 }
 
 #[derive(Clone)]
@@ -62,8 +64,10 @@ impl ProgressTracker for Obs {
     fn tick(&mut self, _state: &ProgressState, _now: Instant) {
         self.shared.lock().unwrap().ticks += 1;
     }
-    fn reset(&mut self, _state: &ProgressState, _now: Instant) {
-        self.shared.lock().unwrap().resets += 1;
+    fn reset(&mut self, state: &ProgressState, _now: Instant) {
+        let mut sh = self.shared.lock().unwrap();
+        sh.resets += 1;
+        sh.last_reset_state = Some((state.pos(), state.is_finished()));
     }
     fn write(&self, state: &ProgressState, w: &mut dyn std::fmt::Write) {
         {
@@ -86,7 +90,7 @@ pub fn make_style(template: &str, obs: &Arc<StdMutex<ObsShared>>, obs_text: &str
     let mut rest = template;
     while let Some(i) = rest.find(|c| c == '{' || c == '}') {
         let tail = &rest[i..];
-        match ["{obs}", "{msg}", "{prefix}", "{pos}", "{len}", "{ ", "{\t"].iter().find(|k| tail.starts_with(**k)) {
+        match ["{obs}", "{msg}", "{prefix}", "{pos}", "{len}", "{ ", "{\t", "{\n"].iter().find(|k| tail.starts_with(**k)) {
             Some(k) => rest = &tail[k.len()..],
             None => return Err("harness: template outside the model-renderable family".into()),
         }
@@ -374,11 +378,6 @@ impl Stage {
                     // whether they do)
                     let painted = self.last_painted.get(&b).cloned().unwrap_or_default();
                     let full = self.bars[b].abs.submitted.clone().unwrap_or_default();
-                    if !painted.is_empty() {
-                        // (a cut frame leaves the cursor in the middle of a row - observation O1 -
-                        // so what follows static text kept from it is not pinned down)
-                        self.out_of_scope = Some("a painted, visibly finished bar is retired from a height-truncated frame".into());
-                    }
                     if painted.len() < full.len() {
                         if !by_paint {
                             // the implementation may not have reaped this bar yet: it would still
@@ -742,6 +741,13 @@ impl Stage {
                     pb.tick();
                 }
             }
+            "burn_forced" => {
+                // a long run of forced redraws (C18: a program that carries on for long after
+                // its terminal went away)
+                for _ in 0..a.min(400) {
+                    pb.force_draw();
+                }
+            }
             "inc" => pb.inc(a),
             "dec" => pb.dec(a),
             "set_position" => pb.set_position(a),
@@ -786,7 +792,22 @@ impl Stage {
             "iter_exhaust" => {
                 let n = a as usize;
                 let it = pb.wrap_iter(0..n);
-                for _ in it {}
+                // external or internal iteration: both have to end with the finish behaviour
+                match op.n2() % 5 {
+                    1 => it.for_each(|_| {}),
+                    2 => {
+                        let _ = it.count();
+                    }
+                    3 => {
+                        let _ = it.last();
+                    }
+                    4 => {
+                        let _ = it.fold(0usize, |a, x| a.wrapping_add(x));
+                    }
+                    _ => {
+                        for _ in it {}
+                    }
+                }
             }
             "iter_partial" => {
                 let n = a as usize;
@@ -918,7 +939,9 @@ impl Stage {
                 if matches!(k, "iter_exhaust" | "iter_partial") {
                     at_render.pos = opos;
                     at_render.len = olen;
-                } else if opos != at_render.pos || olen != at_render.len {
+                } else if (opos != at_render.pos || olen != at_render.len) && self.rules.transcript {
+                    // (without the transcript oracle - C18 - a steady ticker may render in the
+                    // middle of a call: what it saw is not the state after the call)
                     r.violate(
                         &format!("{}.render_state", self.rules.prop),
                         format!(
@@ -973,6 +996,7 @@ impl Stage {
         r: &mut Report,
     ) {
         let prop = self.rules.prop;
+        let unreaped_before = self.unreaped_possible;
         res.calls = self.term.n_calls() - calls0;
         res.flushed = self.term.flushes() > flush0;
         let at = format!("op#{} {}", self.op_idx, op.short());
@@ -1030,12 +1054,6 @@ impl Stage {
                     return;
                 }
                 r.probe("region_exceeds_height");
-                if matches!(op.k.as_str(), "println" | "suspend" | "mp_println" | "mp_suspend") {
-                    // printing while the frame does not fit: the truncated draw leaves the cursor
-                    // mid-row (observed, see DESIGN §9); C19's statement is about the bars only
-                    self.out_of_scope = Some(format!("{at}: printing while the frame is height-truncated"));
-                    return;
-                }
             }
         }
         // the frame painted by this call still shows dropped leading bars as members: check first,
@@ -1054,6 +1072,49 @@ impl Stage {
                 }
             } else {
                 self.check_transcript(&actual, &at, r);
+                let frames = self.term.flushes() - flush0;
+                let lead_dropped = self.members.first().map_or(false, |b| self.bars[*b].abs.dropped);
+                if r.violation.is_some() && frames >= 2 && lead_dropped && self.out_of_scope.is_none() {
+                    // a call that paints several frames: an earlier frame of it may already have
+                    // reaped the leading dropped bars, so that the last one shows the state after
+                    // their retirement
+                    let first = r.violation.take();
+                    // what that earlier frame painted of each member: the prefix of the lines that
+                    // fit the terminal height (the information kept from the previous call is stale)
+                    {
+                        let w = self.w;
+                        let region = self.region_spec();
+                        let rows: usize = region.iter().map(|(_, l, _)| l.iter().map(|x| rows_of(x, w)).sum::<usize>()).sum();
+                        self.last_frame_cut = rows > self.h;
+                        let mut painted: std::collections::BTreeMap<usize, Vec<String>> = Default::default();
+                        let mut used = 0;
+                        'outer: for (b, lines, _) in &region {
+                            let mut kept = vec![];
+                            for l in lines {
+                                let hgt = rows_of(l, w);
+                                if used + hgt > self.h {
+                                    if !kept.is_empty() {
+                                        painted.insert(*b, kept);
+                                    }
+                                    break 'outer;
+                                }
+                                used += hgt;
+                                kept.push(l.clone());
+                            }
+                            painted.insert(*b, kept);
+                        }
+                        self.last_painted = painted;
+                    }
+                    self.retire_leading(true);
+                    if self.out_of_scope.is_none() {
+                        self.check_transcript(&actual, &at, r);
+                        if r.violation.is_some() {
+                            r.violation = first;
+                        } else {
+                            r.probe("matched_after_retiring_within_call");
+                        }
+                    }
+                }
                 self.last_transcript = actual;
             }
             if r.violation.is_some() || self.out_of_scope.is_some() {
@@ -1066,6 +1127,12 @@ impl Stage {
             // leading only through that may still be counted by an index-based insert until the
             // next painted frame.
             let retired = self.retire_leading(res.flushed && !matches!(op.k.as_str(), "drop" | "drop_all"));
+            if res.flushed && matches!(op.k.as_str(), "println" | "mp_println") && (!retired.is_empty() || unreaped_before) {
+                // bars reaped below lines printed by the same draw are not kept: their rows stay
+                // until the next draw, and until then a dropped head bar is not reaped at once
+                // (same bookkeeping as after remove())
+                self.removed_since_paint = true;
+            }
             if matches!(op.k.as_str(), "drop" | "drop_all") {
                 let this = bar.map(|(b, _, _)| b);
                 if retired.iter().any(|b| Some(*b) != this) || (self.removed_since_paint && !retired.is_empty()) {
